@@ -155,6 +155,47 @@ CLAIMED.update({
    "be randomized, so stream-vs-buffer byte equality is required only for deterministic schemes (CID = content address is always required)."),
 })
 
+CLAIMED.update({
+ "C08": ("model_checking",
+   "TLA+ spec Canon.tla (CidAgreement over the CID-reporting APIs; Canonical over non-canonical encoding features) model-checked with "
+   "TLC; replayed with a hand-computed CID and a stand-alone CBOR transcoder applying each feature at every applicable item of real sealed tokens",
+   "TLC checks that every API reports the CID of the bytes and that an accepted artefact uses none of 8 non-canonical feature kinds at 6 "
+   "position classes (1 feature quick, 2 thorough). The replay compares ToSealed / ToSealedWriter / FromSealed / FromSealedReader "
+   "(generic, typed, data-with-EOF and 1-byte readers) and container keys with CIDv1(dag-cbor, sha2-256) computed by hand for tokens "
+   "of five key algorithms, and re-encodes each token with every feature at every applicable item; accepted re-encodings are reported "
+   "under the known findings LenientCbor / EcdsaMalleable, anything else is a violation.",
+   "The canonicity clause does not hold on this tree (two known findings, see known_findings.json); the check keeps reporting any "
+   "re-encoding class outside those findings and any CID disagreement."),
+ "C09": ("exploration",
+   "every entry point for untrusted data driven with structured hostile inputs behind valid signatures, hostile container/CBOR/JSON "
+   "structures and random/mutated inputs under recover + deadline + allocation measurement; each recorded call validated by TraceTotal.tla "
+   "(the observable side of the totality of the decode operators of the TLA+ suite)",
+   "Sampling, not proof: ~3 000 (quick) to ~250 000 (thorough) real calls of 16 entry points. What the specification contributes is the "
+   "structured part - malformed payloads that are correctly signed and therefore reach the code behind the signature check (classes "
+   "taken from Envelope.tla / Did.tla plus depth, length and magnitude extremes) - and the acceptance rule (only value/error, allocation "
+   "<= 128 MiB + 4 KiB per input byte) evaluated by TLC on every recorded call.",
+   "Termination is a 20 s deadline per call; memory is cumulative allocation (an upper bound of peak use) measured with runtime.ReadMemStats; "
+   "random inputs are plain sampling."),
+ "C19": ("model_checking",
+   "TLA+ spec Meta.tla (symbolic secretbox: Add -> seal/unseal -> Tamper -> Get) model-checked with TLC for RoundTrip / Authentic / "
+   "KeyRefusal / Fresh; every behaviour replayed with the real secretbox through Meta and both token types; every bit of stored "
+   "ciphertexts flipped and validated by TraceMeta.tla",
+   "TLC enumerates carrier x API x plaintext class x 9 key classes for adding x seal/unseal x 6 tamper regions x 9 key classes for "
+   "reading (18 630 behaviours); each is executed on the real code, with confidentiality (no plaintext in the stored value or the sealed "
+   "token) and freshness checked on real bytes; thorough flips every bit of four ciphertexts.",
+   "Cipher strength is assumed (symbolic model); confidentiality is a substring check for plaintexts of >= 8 bytes."),
+ "C20": ("model_checking",
+   "PlusCal/TLA+ spec Immutable.tla (read-only processes over the shared key slice, all interleavings) model-checked with TLC for the "
+   "action property Frozen and the invariants Repeatable / SortedOut; bound to the code by snapshot traces of every read-only operation "
+   "sequence (TraceImmutable.tla) and by the Go race detector on concurrent mixes",
+   "TLC explores every interleaving of 2-3 processes (Iter, ToIPLD/String) on 3-4 keys in several insertion orders: no step changes "
+   "the shared slice and a completed iteration yields the insertion order; with the SortInPlace deviation it exhibits the violation. "
+   "On the real code, for every insertion order x constructed/decoded tokens x every sequence of <= 2 of 15 read-only operations the "
+   "deep snapshot (incl. iteration order) must be unchanged and results equal to the run-alone results, and 8 goroutines x 6 random "
+   "operations on shared tokens run under `go build -race` (30 rounds quick, 400 thorough).",
+   "Real schedules are sampled by the race detector, exhaustive only in the model; no scheduling hooks are used."),
+})
+
 NOT_YET = "check not built yet in this session (work in progress; see DESIGN.md section 3 for the planned model)"
 
 checks, na = [], []
